@@ -40,7 +40,7 @@ func statsToSimkit(w *chainsim.World) {
 	sort.Strings(keys)
 	for _, k := range keys {
 		switch k {
-		case "gossip_topic_blackout", "gossip_dropped", "gossip_duplicated", "gossip_cut", "rpc_timeout", "rpc_error", "rpc_truncated", "rpc_bitflip", "crash", "restart", "partition", "heal", "ban":
+		case "byz_lying_common_block", "gossip_topic_blackout", "gossip_dropped", "gossip_duplicated", "gossip_cut", "rpc_timeout", "rpc_error", "rpc_truncated", "rpc_bitflip", "crash", "restart", "partition", "heal", "ban":
 			simkit.FaultN(k, w.S.Stats[k])
 		default:
 			simkit.Count(k, int64(w.S.Stats[k]))
@@ -77,6 +77,7 @@ func runC02(t *rapid.T) {
 	faultFree := simkit.Bool(t, "faultfree")
 	opts := chainsim.WorldOpts{Nodes: [2]int{2, 5}, Validators: [2]int{4, 9}, ValidatorChanges: true, NetFaults: !faultFree, SmallCache: true}
 	w := chainsim.DrawWorld(t, opts)
+	defer w.Shutdown()
 	m := chainsim.NewMonitor(w, nil)
 	m.Report = reporterFor(t, "C02", w, func() string { return tipsSummary(w) })
 	installPanicReporter(w, m)
@@ -169,17 +170,20 @@ func panicSite(stack string) string {
 // ---- shared runner for the honest-network properties ---------------------------------------------------------------
 
 type runCfg struct {
-	prop    string
-	opts    chainsim.WorldOpts
-	faults  chainsim.FaultPlan
-	blocks  [2]int
-	mutants bool
-	certs   time.Duration // interval of certificate probes (0: the certificate monitor is not installed)
-	tail    func(w *chainsim.World, m *chainsim.Monitor, adv *chainsim.Adversary)
+	prop       string
+	opts       chainsim.WorldOpts
+	faults     chainsim.FaultPlan
+	blocks     [2]int
+	mutants    bool
+	forkchoice bool
+	fuzz       time.Duration // interval of the hostile peer's messages (0: none)
+	certs      time.Duration // interval of certificate probes (0: the certificate monitor is not installed)
+	tail       func(w *chainsim.World, m *chainsim.Monitor, adv *chainsim.Adversary)
 }
 
 func runHonest(t *rapid.T, c runCfg, extra func(w *chainsim.World, m *chainsim.Monitor)) {
 	w := chainsim.DrawWorld(t, c.opts)
+	defer w.Shutdown()
 	var adv *chainsim.Adversary
 	if len(w.Byz) > 0 {
 		adv = w.AddAdversary()
@@ -195,6 +199,13 @@ func runHonest(t *rapid.T, c runCfg, extra func(w *chainsim.World, m *chainsim.M
 	chainsim.NewSyncMonitor(w, m.Report) // the sync oracles (C19) ride along in every run
 	if c.mutants {
 		chainsim.NewMutantInjector(w, m, m.Report)
+	}
+	if c.forkchoice {
+		fm := chainsim.NewForkChoiceMonitor(w, m, m.Report)
+		w.S.OnAdversaryBlock = fm.OnByzantineBlock
+	}
+	if c.fuzz > 0 {
+		chainsim.NewFuzzPeer(w, m, c.fuzz)
 	}
 	if c.certs > 0 {
 		chainsim.NewCertMonitor(w, m, m.Report, c.certs)
@@ -230,7 +241,7 @@ func TestC04(t *testing.T) {
 		simkit.AddRun()
 		defer simkit.Watch(300*time.Second, "C04 run")()
 		simkit.Guard(func() {
-			runHonest(t, runCfg{prop: "C04", opts: chainsim.WorldOpts{Nodes: [2]int{2, 5}, Validators: [2]int{4, 8}, ValidatorChanges: true, NetFaults: true, RPCFaults: true, SmallCache: true, StandardThresholds: true},
+			runHonest(t, runCfg{prop: "C04", opts: chainsim.WorldOpts{Nodes: [2]int{2, 5}, Validators: [2]int{4, 8}, Byzantine: true, ValidatorChanges: true, NetFaults: true, RPCFaults: true, SmallCache: true, StandardThresholds: true},
 				faults: chainsim.FaultPlan{Partitions: true, Crashes: true, Skew: true}, blocks: [2]int{15, 110}}, nil)
 		})
 	})
